@@ -2,6 +2,7 @@
 #define PARSENUM_H_
 
 #include <assert.h>
+#include <ctype.h>
 #include <errno.h>
 #include <inttypes.h>
 #include <math.h>
@@ -182,6 +183,7 @@ parsenum_unsigned(const char * s, uintmax_t min, uintmax_t max,
 {
 	char * eptr;
 	uintmax_t val;
+	const char * p;
 
 	/* Sanity check. */
 	assert(s != NULL);
@@ -191,6 +193,17 @@ parsenum_unsigned(const char * s, uintmax_t min, uintmax_t max,
 		errno = EINVAL;
 	else if ((val < min) || (val > max) || (val > typemax))
 		errno = ERANGE;
+	else if (val != 0) {
+		/*
+		 * strtoumax accepts a leading minus sign and returns the
+		 * negation of the number as an unsigned value; but a negative
+		 * number is never within the range of an unsigned type.
+		 */
+		for (p = s; isspace((unsigned char)(*p)); p++)
+			continue;
+		if (*p == '-')
+			errno = ERANGE;
+	}
 	return (val);
 }
 
